@@ -9,7 +9,9 @@ import (
 	"fmt"
 	"math"
 	"os"
+	"path/filepath"
 	"runtime"
+	"strings"
 	"testing"
 	"time"
 
@@ -32,6 +34,11 @@ type c18Case struct {
 	LogMuts    []gen.Mut `json:"log_muts,omitempty"`
 	LogKeepLen bool      `json:"log_keep_len,omitempty"` // leave the old block_len in place
 	Raw    Hex           `json:"raw,omitempty"` // used by the native fuzz target: bytes given directly
+	// ViaDir: additionally read the damaged table from a file (fileBlockSource), and as a
+	// member of a stack directory (NewStack, the stack's merged view, the reads an Add does
+	// to validate names, and the reads of a compaction). 1 = damaged table listed first,
+	// 2 = listed last.
+	ViaDir int `json:"via_dir,omitempty"`
 }
 
 func genC18(t *rapid.T) c18Case {
@@ -44,6 +51,9 @@ func genC18(t *rapid.T) c18Case {
 	c.Other = gen.DrawTableWith(t, c.Table.Cfg, c.Table.Max+1, c.Table.Max+3, gen.TableOpts{MaxRefs: 10, MaxLogs: 4, HashPoolMax: 2})
 	c.Muts = gen.DrawMuts(t, 4)
 	c.FixCRC = rapid.IntRange(0, 5).Draw(t, "fixCRC") != 0
+	if v := rapid.IntRange(0, 15).Draw(t, "viaDir"); v <= 2 {
+		c.ViaDir = v
+	}
 	if len(c.Table.Logs) > 0 && rapid.IntRange(0, 2).Draw(t, "logEdit") == 1 {
 		c.LogMuts = gen.DrawMuts(t, 3)
 		c.LogKeepLen = rapid.IntRange(0, 3).Draw(t, "logKeepLen") == 3
@@ -240,7 +250,7 @@ func minI(a, b int) int {
 
 // exercise reads damaged bytes in every way the public API offers.  Errors are
 // fine; what it returns is a description of a misbehaviour, or "".
-func exercise(data []byte, orig gen.TableSpec, otherData []byte, calls *int) string {
+func exercise(data []byte, orig gen.TableSpec, otherData []byte, calls *int, viaDir int) string {
 	limit := len(data) + 64
 	scan := func(what string, it *reftable.Iterator, logs bool) string {
 		for n := 0; ; n++ {
@@ -343,6 +353,84 @@ func exercise(data []byte, orig gen.TableSpec, otherData []byte, calls *int) str
 			}
 		}
 	}
+	if viaDir != 0 {
+		return exerciseDir(data, orig, otherData, viaDir, readAll)
+	}
+	return ""
+}
+
+// exerciseDir reads the damaged bytes through the file-backed block source and as a
+// table of a stack directory: NewStack, the stack's view, the reads Add performs to
+// validate a transaction, and the reads of a compaction.  Errors are fine.
+// dirStats: what the last exerciseDir call reached (one case runs at a time).
+var dirStats struct{ fileOpened, stackOpened, addOK, compactOK bool }
+
+func exerciseDir(data []byte, orig gen.TableSpec, otherData []byte, viaDir int, readAll func(string, reftable.Table) string) string {
+	dirStats.fileOpened, dirStats.stackOpened, dirStats.addOK, dirStats.compactOK = false, false, false, false
+	dir := ScratchDir()
+	defer os.RemoveAll(dir)
+	dn := fmt.Sprintf("0x%012x-0x%012x-0000dddd.ref", orig.Min, orig.Max)
+	if err := os.WriteFile(filepath.Join(dir, dn), data, 0644); err != nil {
+		panic(err)
+	}
+	if src, err := reftable.NewFileBlockSource(filepath.Join(dir, dn)); err == nil {
+		if rd, err := reftable.NewReader(src, dn); err == nil {
+			dirStats.fileOpened = true
+			if s := readAll("file reader", rd); s != "" {
+				return s
+			}
+			rd.Close()
+		} else {
+			src.Close()
+		}
+	}
+	names := []string{dn}
+	if len(otherData) > 0 {
+		// the valid companion table: below (its limits moved is not possible, so it is
+		// only listed below when the damaged one is "last") or above the damaged one
+		on := fmt.Sprintf("0x%012x-0x%012x-0000eeee.ref", orig.Max+1, orig.Max+3)
+		if err := os.WriteFile(filepath.Join(dir, on), otherData, 0644); err != nil {
+			panic(err)
+		}
+		if viaDir == 1 {
+			names = []string{dn, on}
+		} else {
+			names = []string{on, dn} // deliberately out of order as well: NewStack must refuse or cope
+		}
+	}
+	if err := os.WriteFile(filepath.Join(dir, "tables.list"), []byte(strings.Join(names, "\n")+"\n"), 0644); err != nil {
+		panic(err)
+	}
+	cfg := orig.Cfg.Config()
+	st, err := reftable.NewStack(dir, cfg)
+	if err != nil {
+		return ""
+	}
+	defer st.Close()
+	dirStats.stackOpened = true
+	st.VerifSetAutoCompact(false)
+	if s := readAll("stack view", st.Merged()); s != "" {
+		return s
+	}
+	hs := orig.Cfg.HashSize()
+	// the reads behind Add: name validation against the (damaged) view
+	dirStats.addOK = nil == st.Add(func(w *reftable.Writer) error {
+		ui := st.NextUpdateIndex()
+		w.SetLimits(ui, ui)
+		name := "refs/heads/zz/added"
+		if len(orig.Refs) > 0 {
+			name = string(orig.Refs[len(orig.Refs)/2].Name) + "/x"
+		}
+		return w.AddRef(&reftable.RefRecord{RefName: name, UpdateIndex: ui, Value: bytesOf(7, hs)})
+	})
+	if s := readAll("stack view after Add", st.Merged()); s != "" {
+		return s
+	}
+	// the reads of a compaction
+	dirStats.compactOK = st.CompactAll(nil) == nil
+	if s := readAll("stack view after CompactAll", st.Merged()); s != "" {
+		return s
+	}
 	return ""
 }
 
@@ -357,7 +445,7 @@ func bytesOf(b byte, n int) []byte {
 const allocLimit = 64 << 20
 
 // checkDamaged runs exercise under a watchdog and an allocation meter.
-func checkDamaged(data []byte, orig gen.TableSpec, other []byte) error {
+func checkDamaged(data []byte, orig gen.TableSpec, other []byte, viaDir int) error {
 	var before, after runtime.MemStats
 	runtime.ReadMemStats(&before)
 	type res struct {
@@ -376,7 +464,7 @@ func checkDamaged(data []byte, orig gen.TableSpec, other []byte) error {
 			}
 			done <- r
 		}()
-		r.msg = exercise(data, orig, other, &calls)
+		r.msg = exercise(data, orig, other, &calls, viaDir)
 	}()
 	var r res
 	select {
@@ -431,7 +519,7 @@ func propC18(c c18Case, o *Obs) error {
 		b, _ := json.Marshal(map[string]interface{}{"case": c})
 		os.WriteFile(p, b, 0644)
 	}
-	if err := checkDamaged(data, c.Table, other); err != nil {
+	if err := checkDamaged(data, c.Table, other, c.ViaDir); err != nil {
 		return err
 	}
 	// non-trivial: the damaged file still opens (passed the footer checks), so block decoders ran
@@ -446,6 +534,12 @@ func propC18(c c18Case, o *Obs) error {
 	}
 	for _, m := range c.LogMuts {
 		o.Class(fmt.Sprintf("log-mut-kind-%d", m.Kind))
+	}
+	if c.ViaDir != 0 {
+		o.Class("also-read-from-file-and-as-stack-member")
+		o.ClassIf(dirStats.stackOpened, "stack-with-damaged-member-opens")
+		o.ClassIf(dirStats.addOK, "stack-with-damaged-member-accepts-Add")
+		o.ClassIf(dirStats.compactOK, "stack-with-damaged-member-compacts")
 	}
 	return nil
 }
@@ -538,7 +632,7 @@ func FuzzReader(f *testing.F) {
 		if len(data) > 0 && data[0] == 'L' {
 			data = wrap(data[1:])
 		}
-		if err := checkDamaged(data, orig, nil); err != nil {
+		if err := checkDamaged(data, orig, nil, viaDirOf(data)); err != nil {
 			if dir := os.Getenv("VERIF_FUZZ_OUT"); dir != "" {
 				b, _ := json.Marshal(map[string]interface{}{"property": "C18", "sig": err.(*Violation).Sig, "msg": err.Error(),
 					"case": c18Case{Table: orig, Raw: Hex(data)}})
@@ -547,6 +641,14 @@ func FuzzReader(f *testing.F) {
 			t.Fatalf("C18 violated: %v", err)
 		}
 	})
+}
+
+// viaDirOf derives the directory variant of a fuzz input from its content (1 in 8 each).
+func viaDirOf(b []byte) int {
+	if v := int(fnv32(b) % 16); v <= 2 {
+		return v
+	}
+	return 0
 }
 
 func fnv32(b []byte) uint32 {
